@@ -37,8 +37,9 @@ def native_both_profiles(prop, spec, tier, seed, v):
 
 def native_three_profiles(prop, spec, tier, seed, v):
     """as native_both_profiles plus a release build with dimension checking compiled OUT; only for monitors that detect at
-    run time whether checking is compiled in and skip the clauses that need it (C14: a correctly dimensioned setter
-    argument must be accepted in every build)."""
+    run time whether checking is compiled in (util::dim_checked) and skip the clauses that need it. Used by every native
+    monitor except C01: the statements do not restrict the build, and a slip between the *_assume_ok / *_assume_not_ok
+    helper pairs is invisible in every checked build (round 6)."""
     native_both_profiles(prop, spec, tier, seed, v)
     if os.environ.get("VERIF_LANES") == "debug":
         return
@@ -114,7 +115,10 @@ def setup():
         return 1
     try:
         C.build_monitor("c17_conc", hooks=False)
-        C.build_monitor("c14", release_unchecked=True)
+        # third lane (dimension checking compiled out) of every native monitor but C01, whose property is stated
+        # "with dimension checking enabled" (and whose monitor uses checked-only API)
+        unchk = [a for p in PROPS for a in ["--bin", p.lower()] if PROPS[p].get("run") is native_three_profiles]
+        C.cargo_build(C.HARNESS, os.path.join(C.BUILD, "harness-unchk"), unchk + ["--release"], rustflags="--cfg rrtk_verif")
         mt = os.path.join(C.BUILD, "miri")
         lane_c16.miri(C.HARNESS, mt, "c16_miri", ["terminal", "2"])
         lane_c16.miri(C.HARNESS, mt, "c17_conc", ["2", "2"])
@@ -143,35 +147,35 @@ PROPS = {
                      "expected exponents of named constants are parsed from the constant's NAME by lib/gen_constants.py"],
     ),
     "C05": dict(
-        quick_scale=2, thorough_scale=6, run=native_both_profiles, level=EXPL, technique="metamorphic runtime monitor over scripted fault histories (error provenance, reset==fresh-instance, None-deletion, get-purity; bit-exact between runs of the real code)",
+        quick_scale=2, thorough_scale=6, run=native_three_profiles, level=EXPL, technique="metamorphic runtime monitor over scripted fault histories (error provenance, reset==fresh-instance, None-deletion, get-purity; bit-exact between runs of the real code)",
         rule="per stream type (14 incl. f32/Quantity variants) seeded histories of length <=48 over {present, absent, Err(1), Err(2)} from four grammar styles (iid, runs separated by resets, noise, reset followed by >=3 present), CommandPID also set(same/other value/other kind), freeze also condition {true,false,absent}; distinct = (stream, set of adjacent event-kind pairs, length class)",
         assumptions=["reset table per stream taken from the property anchors (PID/Integral/Derivative: None+Err; CommandPID: None+Err+set(different); EWMA/MovingAverage/to-state: Err, None ignored; Float/Quantity converters: every update)",
                      "freeze is not driven with an erroring condition getter (statement silent); after cond=absent then cond=true both absent and the last passed value are accepted",
                      "timestamps strictly increasing for PID/CommandPID/integral/derivative/to-state, non-decreasing for the filters"],
     ),
     "C04": dict(
-        quick_scale=10, thorough_scale=15, run=native_both_profiles, level=EXPL, technique="runtime reference-model monitor (f64 textbook PID with forward error bound) + bit-exact metamorphic relations + differential against the controller assembled from the crate's own streams",
+        quick_scale=10, thorough_scale=15, run=native_three_profiles, level=EXPL, technique="runtime reference-model monitor (f64 textbook PID with forward error bound) + bit-exact metamorphic relations + differential against the controller assembled from the crate's own streams",
         rule="seeded histories of length <=64 from the grammar run((absent|error)+ run)* with run lengths 1,2,3,4-9,10-39, intervals log-uniform 1us..10h (every third history constant-interval), gains/setpoint/samples stratified in +-1e4 incl. zeros; distinct = (set of run-length classes, set of interval decades, absent count class, error count class)",
         assumptions=["strictly increasing timestamps by construction (dt=0 is outside the quantifier)",
                      "forward bound (40+4n)*2^-24*(|kp e| + |ki| sum|addend| + |kd|(|e|+|e_prev|)/dt), n = samples in the run; largest observed ratio is reported as reference_err_over_bound",
                      "the assembled controller updates every node at every step (examples/pid.rs stops at the first erroring node, which would leave the derivative stream unreset)"],
     ),
     "C10": dict(
-        quick_scale=10, thorough_scale=25, run=native_both_profiles, level=EXPL, technique="runtime reference-model monitor (f64 trapezoid sums / difference quotients with propagated forward error bound), unit probing, panic capture, bit-exact shift metamorphic relation",
+        quick_scale=10, thorough_scale=25, run=native_three_profiles, level=EXPL, technique="runtime reference-model monitor (f64 trapezoid sums / difference quotients with propagated forward error bound), unit probing, panic capture, bit-exact shift metamorphic relation",
         rule="per stream (integral, derivative, three to-state converters) seeded histories of <=64 events with strictly increasing stamps (intervals 1us..2h, a quarter constant-interval), four non-linear signal shapes (random walk, sinusoid, steps, white), interleaved absent/error events; integral/derivative input unit drawn from the 7x7 grid; distinct = (stream, input unit, position of the sample in its run) ; plus exhaustive 3 converters x 49 units x offending-sample position for the panic clause",
         assumptions=["double quantities follow the staging the code documents (second integral / difference starts at the first sample where the first one exists)",
                      "forward bound (48+8n)*2^-24*(propagated sum of |terms|), n = samples in the run; largest observed ratio reported per stream/component",
                      "dimension checking compiled in (debug build) for the panic clause"],
     ),
     "C12": dict(
-        quick_scale=4, thorough_scale=30, run=native_both_profiles, level=EXPL, technique="runtime reference-model monitor (exact i64 window weights + f64 weighted average; one-step EWMA law with the crate's own powf), panic capture, bit-exact f32-vs-Quantity differential",
+        quick_scale=4, thorough_scale=30, run=native_three_profiles, level=EXPL, technique="runtime reference-model monitor (exact i64 window weights + f64 weighted average; one-step EWMA law with the crate's own powf), panic capture, bit-exact f32-vs-Quantity differential",
         rule="seeded histories of <=64 events (present with non-decreasing, 15% repeated, stamps; absent; two errors), steps 1ns..1h, windows 1ns..10h incl. windows shorter than a step and longer than the history, smoothing in {0,1,2^-k,U(0,1)}, every 7th history constant-valued; all four filter variants driven by the same history; distinct = (set of window occupancies seen, window decade, smoothing quartile, has-error, has-absent)",
         assumptions=["non-decreasing timestamps and positive windows only (negative dt / non-positive windows are outside the quantifier)",
                      "EWMA checked one step at a time against prev*(1-L)+new*L with prev = the stream's own previous output and L = 1 - powf(1-s, dt) using the crate's powf obtained through ExponentStream; bound 24*2^-24*(|prev|+|new|)",
                      "moving average bound (48+8n)*2^-24*sum(w_i|x_i|)/W, n = samples in the window; first sample within 4 ulp (x*W/W is two roundings)"],
     ),
     "C11": dict(
-        quick_scale=20, thorough_scale=50, run=native_both_profiles, level=EXPL, technique="runtime reference-model monitor (f64 staged PID / integral / double-integral state machine with propagated forward bound) + bit-exact twin instance for set(same)",
+        quick_scale=20, thorough_scale=50, run=native_three_profiles, level=EXPL, technique="runtime reference-model monitor (f64 staged PID / integral / double-integral state machine with propagated forward bound) + bit-exact twin instance for set(same)",
         rule="seeded histories of <=48 steps; each step optionally issues set(command) {same, same kind other value, other kind} or changes the followed command getter {command, absent, error} (every third history follows a getter), then feeds a state sample / absent / error and updates; distinct gains per kind; distinct = (command kind, sample index since restart, following?, set of restart causes seen so far)",
         assumptions=["staging mirrored from the documentation: I and D of the error start at the 2nd sample of a run, integral of u from the 2nd, double integral from the 3rd",
                      "forward bound (64+12n)*2^-24*(propagated sum of |terms|); largest observed ratio per kind reported",
@@ -179,20 +183,20 @@ PROPS = {
                      "the error-reported clause is checked on the get() immediately after the erroring update only"],
     ),
     "C06": dict(
-        quick_scale=20, thorough_scale=25, run=native_both_profiles, level=EXPL, technique="runtime consistency monitor across the six accessors of the same object (presence/mode table, bit-identity of history vs accessor), boundaries recovered by bisection of get_piece, monotonicity of pieces monitored on sorted query times",
+        quick_scale=20, thorough_scale=25, run=native_three_profiles, level=EXPL, technique="runtime consistency monitor across the six accessors of the same object (presence/mode table, bit-identity of history vs accessor), boundaries recovered by bisection of get_piece, monotonicity of pieces monitored on sorted query times",
         rule="seeded profiles (positions +-1e4, limits log-uniform 1e-2..1e3, start/end speeds inside and outside the limit, zero/non-zero end velocity and acceleration => all three end-command kinds, forward and reversed moves, geometry comfortably feasible / around the feasibility edge / arbitrary; a constructor panic is an allowed outcome) x query times {i64 extremes, -1,0,1, each recovered boundary +-2 ns, 48 (quick) / 256 (thorough) random times in [0,2*t3]}; distinct = (direction, end-command kind, set of non-empty phases, decade of t3, signs of start/end velocity)",
         assumptions=["boundaries t1..t3 are private: they are recovered from get_piece by bisection on [0,2^62] and the direct reads are cross-checked against them",
                      "velocity/position presence before t=0 is not constrained (statement only constrains mode, acceleration, history there)"],
     ),
     "C07": dict(
-        quick_scale=4, thorough_scale=20, run=native_both_profiles, level=EXPL, technique="runtime reference-model monitor (f64 trapezoid from the inputs and the recovered boundaries, forward error bound), Simpson integral relation between accessors, bit-exact mirror metamorphic relation, acceptance oracle for comfortably feasible moves",
+        quick_scale=4, thorough_scale=20, run=native_three_profiles, level=EXPL, technique="runtime reference-model monitor (f64 trapezoid from the inputs and the recovered boundaries, forward error bound), Simpson integral relation between accessors, bit-exact mirror metamorphic relation, acceptance oracle for comfortably feasible moves",
         rule="same seeded profile generator as C06 (60% comfortably feasible by construction: speeds = max_vel*u with |u|<=1 and displacement >= 1.05*(accel+decel distance)+1e-3), each accepted profile queried at boundary +-2 ns times plus 96 (quick) / 512 (thorough) random times inside the move; distinct = (direction, set of non-empty phases, decade of t3, sign of start velocity, end velocity non-zero, comfortable)",
         assumptions=["reference built from the recovered ns boundaries so their truncation is not charged as error; forward bound 48*2^-24*sum|terms| with the term magnitudes of the closed forms (|p0|,|v0 t|,|a t1 t|,|a t^2| ...); largest observed ratios reported",
                      "mirror relation negates whole states (position, velocity and acceleration) and is checked only for non-zero displacement (sign tie-break at dp=0 is legitimate)",
                      "arrival is decided on the reference trajectory evaluated at the recovered t3 against the end state"],
     ),
     "C02": dict(
-        run=native_both_profiles, level=EXPL, technique="exhaustive shape enumeration with random payloads; bit-exact doc-derived oracle per combinator; cross-checks Sum2 vs SumStream<2>, Product2 vs ProductStream<2>, De Morgan both directions, purity over three reads; panic capture",
+        run=native_three_profiles, level=EXPL, technique="exhaustive shape enumeration with random payloads; bit-exact doc-derived oracle per combinator; cross-checks Sum2 vs SumStream<2>, Product2 vs ProductStream<2>, De Morgan both directions, purity over three reads; panic capture",
         rule="for each of the 16 combinators every shape is enumerated completely: outcome code of every input (Err(1), Err(2), None, Some; booleans Some(false)/Some(true)) x every weak ordering < = > of the present inputs' timestamps, arities 1..=5 of SumStream/ProductStream/Latest, payloads f32 and Quantity; Expirer adds clock state x age-vs-limit < = > x 4 limit strata, NoneToValue clock state x clock-vs-input order; each shape gets random finite values per (seed, sub, case) and get() is called three times; distinct = (combinator, payload, outcome vector, timestamp-order class)",
         assumptions=["expiry limits are drawn from a pool with 0, 1, negative, i64::MAX, MAX-1, MIN, MIN+1 (clock placed so that the crate's own now - t cannot overflow); NoneToValue / ConstantGetter parameters include special values; one object may serve as data input AND clock through all six Reference backings",
                      "update() on a stateless combinator is a no-op returning Ok(()): reads after [set A; update(); set B] equal a fresh instance given B (bit-exact); input polls per update() are recorded, not judged",
@@ -203,7 +207,7 @@ PROPS = {
                      "Expirer times kept below 2^61 (the crate subtracts them); i64 extremes only where stamps are merely compared"],
     ),
     "C03": dict(
-        thorough_scale=6, run=native_both_profiles, level=EXPL, technique="exhaustive enumeration over anchor timestamp pairs x operator form x payload plus stratified random; integer max/argmax oracle; bit-identity for selections; before/after terminal snapshots for devices; panic capture",
+        thorough_scale=6, run=native_three_profiles, level=EXPL, technique="exhaustive enumeration over anchor timestamp pairs x operator form x payload plus stratified random; integer max/argmax oracle; bit-identity for selections; before/after terminal snapshots for devices; panic capture",
         rule="every Datum operator impl in src/datum.rs over all 15x15 ordered pairs of anchor stamps {i64::MIN, MIN+1, -2^62-1, -2^62, -1e9-7, -2,-1,0,1,2, 1e9+7, 2^62, 2^62+1, MAX-1, MAX} and random stratified pairs, 5 payload types; latest() and the three replace helpers on the same pairs x slot {empty,full} x candidate {Some,None}; Latest arity 1-5 and SumStream/ProductStream arity 1-4 over every assignment of {absent, rank 1..n}; all two-input streams x 4 presence masks; terminals 16 own/partner presences x connected/unconnected x 11x11 moderate stamp pairs; one update() of each of 12 devices with distinct stamps on every slot; distinct = (site/operator form, payload, stratum of each stamp, order class)",
         assumptions=["topology sub-checks keep a set-of-pairs model (connect(x,y) first severs the previous links of x and y); contributor / candidate sets of every terminal read come from that model; a terminal linked to nothing returns exactly its own last request",
                      "the crate only compares timestamps on these paths; terminal/device stamps stay within |t| <= 2^40+3",
@@ -212,7 +216,7 @@ PROPS = {
                      "Getter<TerminalData> (combined read) is stamped with the state's time by design (C09 statement), so it is only required to carry one of the part stamps here"],
     ),
     "C09": dict(
-        quick_scale=4, thorough_scale=4, run=native_both_profiles, level="fault_enumeration", technique="model-based runtime monitor: partner relation rebuilt from terminal reads alone (twice: from state reads of power-of-two labels and from command reads) and compared with a set-of-pairs model; exhaustive BFS over reachable matchings x operations under panic capture; f64 reference for the read semantics",
+        quick_scale=4, thorough_scale=4, run=native_three_profiles, level="fault_enumeration", technique="model-based runtime monitor: partner relation rebuilt from terminal reads alone (twice: from state reads of power-of-two labels and from command reads) and compared with a set-of-pairs model; exhaustive BFS over reachable matchings x operations under panic capture; f64 reference for the read semantics",
         level_text="Every reachable link state of 2..6 terminals x every connect/disconnect operation is enumerated (breadth-first) and executed on fresh terminals under panic capture, so the operation-sequence part of the quantifier is covered completely up to n=6; the value/timestamp part is sampled. Still only 'held on what was executed'.",
         rule="exhaustive BFS: for n = 2..=6 every one of the 2/4/10/26/76 matchings x every connect(i,j), i!=j, and disconnect(i) x labels written first or last, each edge replayed on fresh terminals; plus random walks of 64 steps on 2..6 terminals and random read-semantics histories of 8..20 steps (set-state, set-command, connect, disconnect) with all three reads of every terminal checked after every step; distinct = (n, matching, operation, variant) / (n, pre-matching, op) / structural shape of the history",
         assumptions=["reads are repeated while shared borrows (Ref, never RefMut) of the partner / the terminal / both / an unrelated terminal are held and must neither panic nor change; states and commands may be delivered by follow + Terminal::update (a present followed datum becomes the own slot whatever its stamp; absent changes nothing; an error is returned and the slot is unchanged; the polling order of the two facets is not assumed); when the exact mean of two components is an f32 number and neither the operands nor the mean are below 2*MIN_POSITIVE (halving exact) the read must be that number",
@@ -232,7 +236,7 @@ PROPS = {
                      "in update-extreme (any finite triple) a non-finite result where the true result is representable is a violation; the overflow of intermediates when some term exceeds 1e37 is a listed known finding"],
     ),
     "C15": dict(
-        quick_scale=10, thorough_scale=16, run=native_both_profiles, level=EXPL, technique="model-based random operation sequences against an exact executable model; scripted recording history; fault-injecting getters, clocks and settable; panic capture",
+        quick_scale=10, thorough_scale=16, run=native_three_profiles, level=EXPL, technique="model-based random operation sequences against an exact executable model; scripted recording history; fault-injecting getters, clocks and settable; panic capture",
         rule="three sub-checks: seq (operation sequences <=40 over a recording settable with scripted accept/reject, two scripted getters, a ConstantGetter that is settable/following/followable, four clock kinds), hist (GetterFromHistory over a scripted history recording every queried time, four constructors by quota, three clock kinds, <=40 ops from {get, clock advance/jump/error, set_delta, set_time, update with scripted errors}), adapters (Time as TimeGetter, NoneGetter, TimeGetterFromGetter, ConstantGetter); after every operation result, get_last_request, the impl_set log, get() and the history's query log are compared exactly with the model; distinct = (previous op, op, following state, followed-getter category) / (constructor, clock kind, op bigram, offset class) / event bigrams",
         assumptions=["builtin sub-check: the same bookkeeping/following model over every impl of Settable in the crate - ConstantGetter, Terminal (its Datum<Command> and Datum<State> facets, unconnected; its own getters show the stored request) and CommandPID crossed with its process input being present / absent / erroring; for a Terminal whose OTHER facet's followed getter errs, forwarding on this facet is accepted either way (order undocumented); a CommandPID update may also return its process input's error, no order between error sources asserted",
                      "in hist clock values, starts, deltas and set_time targets range over the whole of i64, each partner quantity being constructed so that now+delta, start-now, t-now and -now stay inside i64 (clock readings > i64::MIN): nothing overflows",
@@ -248,7 +252,7 @@ PROPS = {
                      "DimensionlessInteger<->Quantity value checks are lenient (statement only loosely covers them)"],
     ),
     "C08": dict(
-        quick_scale=5, thorough_scale=25, run=native_both_profiles, level=EXPL, technique="runtime reference-model monitor: f64 least-squares projection of the states read through the API just before update() (forward error bound), own slots read back with get_last_request; constraint residual and untouched-slot checks; behavioural observation of the tooth-count ratio",
+        quick_scale=5, thorough_scale=25, run=native_three_profiles, level=EXPL, technique="runtime reference-model monitor: f64 least-squares projection of the states read through the API just before update() (forward error bound), own slots read back with get_last_request; constraint residual and untouched-slot checks; behavioural observation of the tooth-count ratio",
         rule="per device (Invert, GearTrain with ratio in +-[1e-2,1e2] via with_ratio_raw / with_ratio, Axle<0..6>, Differential x {Side1,Side2,Sum,Equal,new()}) seeded cases of 1..8 rounds; each round writes new states (distinct increasing stamps) into a random subset of own and connected external terminals (15% of cases with mutually consistent values), then read -> update -> read back; every presence subset of the 2- and 3-terminal devices carries a coverage floor; tooth lists of length 2..6; distinct = (device, presence mask of the reads, round class, consistent?)",
         assumptions=["'states read at its terminals' = Getter<State> on the device's own terminals immediately before update() (mean of own and connected partner), as the statement words it",
                      "forward bound 48*2^-24*sum|terms| per component; largest observed ratio per device reported; 'unchanged' for consistent inputs is within that bound",
@@ -264,7 +268,7 @@ PROPS = {
                      "a monitor process killed by a signal in the poison lane is read as a violation (memory corruption), see props.on_crash"],
     ),
     "C20": dict(
-        thorough_scale=4, run=native_both_profiles, level=EXPL, technique="recording and fault-injecting inner objects at the trait boundary; per-round differential against an oracle computed from the pre-update terminal read; bit-exact twin stand-alone CommandPID with identical wiring; exhaustive single-round grids",
+        thorough_scale=4, run=native_three_profiles, level=EXPL, technique="recording and fault-injecting inner objects at the trait boundary; per-round differential against an oracle computed from the pre-update terminal read; bit-exact twin stand-alone CommandPID with identical wiring; exhaustive single-round grids",
         rule="two exhaustive single-round grids (actuator 384 cells: own/partner state and command present or absent, linked or not, stamp order, inner accept/reject/update-error; encoder 64 cells: getter present/absent/error-1/error-2, inner update ok/error, own slots empty or filled, partner) plus three random families (actuator, encoder, pid) of 1..=32-round histories in which each round delivers a new state and/or command (all three kinds) to the external and/or own terminal or re-links / disconnects them, with scripted reject / update-error / getter present-absent-erroring; distinct = per-round sequence of (what the terminal saw, inner outcome) (+ twin output class for pid)",
         assumptions=["following strata (act/enc/pid-following): the wrapper's OWN terminal may receive state / command through followed getters (present or absent, never erring; stamps older / equal / newer than stored, |t| < 2^41); such data count as seen by the terminal from the wrapper's own update on (slot model + scratch pair of terminals gives the expected read); for the encoder only 'the getter's present state ends up in the own state slot' is asserted, the command slot and the no-write paths are not judged",
                      "observing strata (act/enc/pid-observing): the inner object reads its own and/or the connected terminal (TerminalData, State, Command, both last-request slots) from inside impl_set / update / get; every such read is permitted by the unchanged crate, must not panic, and must show what the monitor read immediately before the wrapper's update() (for the encoder only reads up to the first inner get() are compared)",
@@ -274,7 +278,7 @@ PROPS = {
                      "stamps |t| <= 2^40, non-decreasing with repeats; repeated stamps give inf/NaN on both sides and are compared canonically"],
     ),
     "C13": dict(
-        run=native_both_profiles, level=EXPL, technique="model-based runtime oracle (newest issued command, side-mapping table) with exhaustive small-scope enumeration of command-slot assignments and quota-driven random histories and chains; snapshot bit-identity for the differential",
+        run=native_three_profiles, level=EXPL, technique="model-based runtime oracle (newest issued command, side-mapping table) with exhaustive small-scope enumeration of command-slot assignments and quota-driven random histories and chains; snapshot bit-identity for the differential",
         rule="five sub-checks: assign (every assignment of {no command, distinct stamp ranks} to own and connected-external command slots x kind of the newest command, followed by 0-7 random rounds, for Invert, GearTrain via with_ratio_raw / with_ratio / new with 2-6 gears, Axle<1..3>), axle (Axle<1..=6> x each of the 2N slots as holder of the newest command x kind), random (single devices 1-8 rounds), chain (1-5 random Invert/GearTrain/Axle<2> joined by connect in random orientation, command injected at either end, devices updated in travel order, far end and every device exit checked), differential (five constructions x all 64 state-presence masks x 1-8 rounds); distinct = (device/constructor, connection pattern, first-round rank assignment, kind, issuing slot per round) / chain shape / per-round masks",
         assumptions=["commands may be delivered through followed getters (device terminals pull them in during the device's own update, external terminals through an explicit Terminal::update run by the harness before it); gear trains are built through with_ratio_raw, with_ratio and the tooth-count constructor (2..6 gears) and driven in both directions",
                      "the harness is the only issuer of commands and every issued stamp is strictly larger than all earlier ones (equal stamps are outside the quantifier); the premise 'newest command readable before update' is re-confirmed before every update",
